@@ -478,6 +478,48 @@ pub fn key_ty(fields: &[usize]) -> Option<Ty> {
     match fields { [f] => field(*f).map(|s| s.ty).map(|t| if t == Ty::MapText { Ty::OptKeyText } else { t }), _ => None }
 }
 
+
+// ------------------------------------------------------------------------------------------
+// known finding F-C02-2: an index created in the callback of the open that follows a power loss is
+// backfilled from the id set of the last flush; documents recovery registers afterwards and the new index
+// refuses (unique conflict, wrong vector dimension) are skipped with a log line -> the index stays incomplete
+// ------------------------------------------------------------------------------------------
+pub const F_C02_2: &str = "after-crash:index-created-in-open-callback:incomplete";
+
+fn parse_rel(s: &str) -> RelMap {
+    let mut m = RelMap::new();
+    for row in s.split(' ').filter(|r| !r.is_empty()) {
+        if let Some((k, ids)) = row.rsplit_once('>') { m.insert(k.to_string(), ids.split(',').filter_map(|i| i.parse().ok()).collect()); }
+    }
+    m
+}
+
+/// `tainted`: indexes (B-tree name, or "hn") created in the callback of a post-crash open and still registered.
+/// A complaint is the known finding only if it is a *hole* of such an index that a refusal explains: every
+/// document with a missing posting has a missing key that another document owns in the index (unique
+/// refusal; `insert_array` refuses all of a document's keys at once), resp. a vector of another dimension.
+fn is_f_c02_2(key: &str, expected: &str, observed: &str, tainted: &HashMap<String, usize>, docs: &BTreeMap<u64, ADoc>) -> bool {
+    let parts: Vec<&str> = key.split(':').collect();
+    match parts.as_slice() {
+        ["bt", name, "hole"] if tainted.contains_key(*name) => {
+            let (exp, obs) = (parse_rel(expected), parse_rel(observed));
+            let mut missing: BTreeMap<u64, Vec<String>> = BTreeMap::new();
+            for (k, ids) in &exp { for id in ids { if !obs.get(k).is_some_and(|o| o.contains(id)) { missing.entry(*id).or_default().push(k.clone()); } } }
+            !missing.is_empty() && missing.iter().all(|(id, ks)| ks.iter().any(|k| obs.get(k).is_some_and(|o| o.iter().any(|j| j != id))))
+        }
+        ["filter", _, name] if tainted.contains_key(*name) => {
+            // the public path over the same incomplete index: it returns a subset of the expected ids
+            let want: BTreeSet<&str> = expected.split(',').collect();
+            observed.split(',').all(|i| i == "-" || want.contains(i))
+        }
+        ["hn", "count"] | ["hn", "hole"] => match tainted.get("hn") {
+            Some(dim) => docs.values().any(|d| matches!(get(d, HN_FIELD), Val::Vec(n) if n != *dim)),
+            None => false,
+        },
+        _ => false,
+    }
+}
+
 pub fn doc_from_line(fvs: &[(usize, Val)]) -> Option<Doc> {
     if fvs.len() != FIELDS.len() { return None; }
     let mut d = ADoc::new();
@@ -553,6 +595,8 @@ pub async fn run_real(ops: &[String]) -> Result<CaseRun, String> {
     let mut coll: Option<Arc<Collection>> = None;
     let mut max_seen: u64 = 0;
     let mut last: Option<Observed> = None;
+    // indexes created in the callback of a post-crash open (name -> 0, "hn" -> dimension), while registered
+    let mut tainted: HashMap<String, usize> = HashMap::new();
     let mut i = 0usize;
     while i < ops.len() {
         let line = &ops[i];
@@ -594,14 +638,24 @@ pub async fn run_real(ops: &[String]) -> Result<CaseRun, String> {
                 }
                 .map_err(|e| format!("open: {e}"))?;
                 let last_dump = recs.last().map(|r| r.0.dump.clone()).unwrap_or_default();
+                for (rec, _) in &recs {
+                    let t: Vec<&str> = rec.op.split(' ').collect();
+                    match t.as_slice() {
+                        ["mkbt", rank, _] if crashed && rec.out == "ok" => { if let Some((name, _)) = bt_by_rank(rank.parse().unwrap_or(99)) { tainted.insert(name.to_string(), 0); } }
+                        ["mkhn", _, dim] if crashed && rec.out == "ok" => { tainted.insert("hn".into(), dim.parse().unwrap_or(0)); }
+                        ["rmbt", rank] if rec.out == "removed 1" => { if let Some((name, _)) = bt_by_rank(rank.parse().unwrap_or(99)) { tainted.remove(name); } }
+                        ["rmhn", _] if rec.out == "removed 1" => { tainted.remove("hn"); }
+                        _ => {}
+                    }
+                }
                 for (n, (mut rec, obs)) in recs.into_iter().enumerate() {
                     // inside the open callback after a crash the collection is loaded but not yet recovered:
                     // neither compared nor judged (recovery runs after the callback)
-                    if crashed { rec.dump = "unrecovered".into(); } else { for (k, w, e, o) in obs.complaints { run.complaints.push((i + n, k, w, e, o)); } }
+                    if crashed { rec.dump = "unrecovered".into(); } else { for (k, w, e, o) in obs.complaints { let k = if is_f_c02_2(&k, &e, &o, &tainted, &obs.docs) { F_C02_2.to_string() } else { k }; run.complaints.push((i + n, k, w, e, o)); } }
                     run.steps.push(rec);
                 }
                 let after = observe(&c, &mut dict, probe).await;
-                if crashed { for (k, w, e, o) in after.complaints.clone() { run.complaints.push((j - 1, format!("after-crash:{k}"), format!("after crash recovery: {w}"), e, o)); } }
+                if crashed { for (k, w, e, o) in after.complaints.clone() { let k = if is_f_c02_2(&k, &e, &o, &tainted, &after.docs) { F_C02_2.to_string() } else { format!("after-crash:{k}") }; run.complaints.push((j - 1, k, format!("after crash recovery: {w}"), e, o)); } }
                 if let Some(b) = &before_reopen && j == i + 1 && *b != after.dump {
                     run.complaints.push((i, "reopen:changed-state".into(), "a clean close + open changed what the collection shows".into(), b.clone(), after.dump.clone()));
                 }
@@ -670,7 +724,9 @@ pub async fn run_real(ops: &[String]) -> Result<CaseRun, String> {
             let q = Rq::parse(rq).ok_or("bad q")?;
             let want: Vec<u64> = obs.docs.iter().filter(|(_, d)| keys_of(d, fields).iter().any(|k| k.parse::<i64>().is_ok_and(|n| q.accepts(n)))).map(|(id, _)| *id).collect();
             if csv(&want) != ids {
-                run.complaints.push((i, format!("filter:{}:{name}", q.shape()), format!("range filter {rq} on index {name} is not the set of live documents with a matching stored value"), csv(&want), ids.to_string()));
+                let key = format!("filter:{}:{name}", q.shape());
+                let key = if is_f_c02_2(&key, &csv(&want), ids, &tainted, &obs.docs) { F_C02_2.to_string() } else { key };
+                run.complaints.push((i, key, format!("range filter {rq} on index {name} is not the set of live documents with a matching stored value"), csv(&want), ids.to_string()));
             }
         }
         if let Some(b) = &before && out.starts_with("err:") && b.dump != obs.dump {
@@ -678,7 +734,7 @@ pub async fn run_real(ops: &[String]) -> Result<CaseRun, String> {
             run.complaints.push((i, format!("rejected:{shape}:{out}:left-a-trace"), format!("a rejected {shape} ({out}) changed what the collection shows"), b.dump.clone(), obs.dump.clone()));
         }
         if c.is_poisoned() { run.complaints.push((i, "poisoned".into(), "the handle poisoned itself on a storage backend that never fails".into(), "healthy handle".into(), "poisoned".into())); }
-        for (k, w, e, o) in obs.complaints.clone() { run.complaints.push((i, k, w, e, o)); }
+        for (k, w, e, o) in obs.complaints.clone() { let k = if is_f_c02_2(&k, &e, &o, &tainted, &obs.docs) { F_C02_2.to_string() } else { k }; run.complaints.push((i, k, w, e, o)); }
         run.steps.push(StepRec { op: line.clone(), out, dump: obs.dump.clone(), tag: String::new() });
         last = Some(obs);
         i += 1;
@@ -705,7 +761,9 @@ pub fn run_model(m: &mut ModelProc, ops: &[String]) -> Vec<StepRec> {
 // ------------------------------------------------------------------------------------------
 
 pub struct GenCfg { pub universe: i64, pub n_ops: usize, pub malformed: u64, /// percentage of histories that start with a unique value changing hands across a flush, then a crash
-    pub handover: u64 }
+    pub handover: u64,
+    /// index operations in the open callback after a power loss may create indexes that can refuse a document (F-C02-2)
+    pub crash_creates: bool }
 
 fn gen_val(r: &mut Rng, f: &FieldSpec, g: &GenCfg) -> Val {
     let u = g.universe;
@@ -853,11 +911,10 @@ fn gen_handover(r: &mut Rng, g: &GenCfg, ops: &mut Vec<String>) -> u64 {
     next
 }
 
-/// Index operations for the open callback after a power loss. Creating an index that can *refuse* a
-/// document (unique B-tree, HNSW with its dimension) is left out on purpose: the callback runs before
-/// recovery, so the backfill sees only the documents of the last flush; a document recovery finds later and
-/// the new index refuses is skipped with a log line and stays live but unindexed (candidate finding
-/// F-C02-2, notes/C02.md) — generating it would alarm on the unchanged tree.
+/// Index operations for the open callback after a power loss that cannot run into F-C02-2 (used by C04, where
+/// the finding is not registered): no creation of an index that can *refuse* a document (unique B-tree, HNSW
+/// with its dimension). The callback runs before recovery, so the backfill sees only the documents of the last
+/// flush; a document recovery finds later and the new index refuses is skipped with a log line.
 fn gen_ix_op_after_crash(r: &mut Rng) -> String {
     match r.below(10) {
         0..=3 => { let (name, fs) = *r.pick(&[BT[3], BT[4], BT[5], BT[6]]); format!("mkbt {} {}", bt_rank(name), csv(fs)) }
@@ -923,7 +980,7 @@ pub fn gen_case(r: &mut Rng, g: &GenCfg) -> Vec<String> {
             86 | 87 => ops.push("flush".into()),
             88..=94 => ops.push(gen_q(r, g)),
             // index operations run in the open callback: of a clean reopen, or (one in five) of the open after a power loss
-            _ => { let crash = r.chance(1, 5); ops.push(if crash { "crash" } else { "reopen" }.into()); for _ in 0..1 + r.usize(2) { ops.push(if crash { gen_ix_op_after_crash(r) } else { gen_ix_op(r) }); } if crash { ops.push("check".into()); } }
+            _ => { let crash = r.chance(1, 5); ops.push(if crash { "crash" } else { "reopen" }.into()); for _ in 0..1 + r.usize(2) { ops.push(if crash && !g.crash_creates { gen_ix_op_after_crash(r) } else { gen_ix_op(r) }); } if crash { ops.push("check".into()); } }
         }
     }
     ops
@@ -991,7 +1048,8 @@ pub fn check_case(rt: &tokio::runtime::Runtime, name: &str, ops: &[String], mode
     let indexed = v.steps.last().is_some_and(|s| s.dump.contains('>'));
     rep.case(&ops.join("|"), accepted && indexed);
     let mut reported = false;
-    if let Some((_, key, what, exp, obs)) = v.complaints.first().cloned() {
+    // a case that shows the known finding is still judged on everything else first
+    if let Some((_, key, what, exp, obs)) = v.complaints.iter().find(|c| c.1 != F_C02_2).or(v.complaints.first()).cloned() {
         let small = if do_shrink {
             shrink_ops(ops, |c| { let mut none = None; check_once(rt, c, &mut none).complaints.iter().any(|x| x.1 == key) })
         } else { ops.to_vec() };
